@@ -264,7 +264,8 @@ def run_case(ck, desc):
                 ck.count("compressibility_states_with_negative_combination")
             _cmp(ck, "co==(Bg-dBo/dRs)*dRs/dp/Bob", c, want, desc, {"p": p, "pb": pb, "Bg": bg}, tol=1e-11)
         # the same with the caller's own standard conditions (metric base 15 C / 14.696 psia, 0 C, ...)
-        for Tstd, pstd in ((59.0, 14.696), (32.0, 14.65), (68.0, 15.025)):
+        # (0 F is a temperature like any other on the Fahrenheit scale - as float and as int)
+        for Tstd, pstd in ((59.0, 14.696), (32.0, 14.65), (68.0, 15.025), (0.0, 14.696), (0, 14.7), (-0.0, 14.65)):
             c2 = float(oil.oil_compressibility_Standing(T, p, api, gg, gor, Tpc, ppc, Tstd, pstd))
             if p >= pb:
                 if c2 != float(oil.oil_compressibility_undersat_Spivey(T, p, api, gg, gor)):
@@ -280,7 +281,9 @@ def run_case(ck, desc):
 
                 prm_ = _insp.signature(oil.oil_compressibility_Standing).parameters
                 n7, n8 = ("temperature_standard", "pressure_standard") if {"temperature_standard", "pressure_standard"} <= set(prm_) else list(prm_)[7:9]
-                d7, d8 = prm_[n7].default, prm_[n8].default
+                # (the documented defaults, 60 F and 14.7 psia, also when the signature spells them as None)
+                d7 = 60 if prm_[n7].default is None else prm_[n7].default
+                d8 = 14.7 if prm_[n8].default is None else prm_[n8].default
                 for label_, a_, kw_, cond_ in (
                     ("first condition positionally, second omitted", (Tstd,), {}, (Tstd, d8)),
                     ("first positionally, second by name", (Tstd,), {n8: pstd}, (Tstd, pstd)),
